@@ -31,7 +31,8 @@ func init() {
 
 func runC12(t *testing.T, c *choice.Stream, r *Result, opt RunOpt) {
 	otelOverride = c.Bool("otel", 2, 3)
-	defer func() { otelOverride = false }()
+	otelSDK = otelOverride && c.Bool("otel.sdk", 1, 2)
+	defer func() { otelOverride, otelSDK = false, false }()
 	fam := c.Weighted("family", 5, 2)
 	name := []string{"query", "pool"}[fam]
 	sub := &Result{Prop: r.Prop, Index: r.Index, Seed: r.Seed}
@@ -57,6 +58,9 @@ func runC12(t *testing.T, c *choice.Stream, r *Result, opt RunOpt) {
 	}
 	if otelOverride {
 		r.Fire("otel_on")
+	}
+	if otelSDK {
+		r.Fire("otel_sdk_provider")
 	}
 }
 
